@@ -53,6 +53,8 @@ def declare_compute_key(E):
                                           ensures=["fn('kdf_dlen', 'int', opaque_id(self)) >= 1"])
     E.contract("_hashlib.openssl_sha1", argnames=["data"], returns="opaque:KHash",
                ghost={"kdf_hashed": "data", "kdf_cur_alg": "-1"})
+    # (one hash object is live at a time in the code this models, so its accumulated input is one ghost)
+    E.contract("KHash.update", argnames=["self", "more"], returns="none", ghost={"kdf_hashed": "ghost('kdf_hashed') + more"})
     E.contract("KHash.digest", argnames=["self"], returns="bytes",
                ensures=["result == fn('kdf_digest', 'bytes', ghost('kdf_cur_alg'), ghost('kdf_hashed'))",
                         "len(result) == fn('kdf_dlen', 'int', ghost('kdf_cur_alg'))",
